@@ -1,4 +1,6 @@
 import BornoModel.Cli
+import BornoModel.Lemmas.ParseSoundStmt
+import BornoModel.Props.C09
 /-! # C08 — the front end is total, accepts exactly the documented language, runs nothing else -/
 namespace Borno.Props.C08
 open Borno Parser Cli
@@ -64,6 +66,27 @@ theorem brace_opens_block (f : Nat) (t : Token) (r : List Token) (ht : t.tt = .L
 
 /-- a diagnostic of the parser names the line of the token it stopped at -/
 theorem diagnostic_line_is_token_line (t : Token) (msg : List Char) : (errAt t msg).line = t.line := rfl
+
+open Grammar in
+/-- **accepted ⇒ derivable**: if the parser accepts a token list without any diagnostic, the tokens up to
+    the end-of-input token are exactly what the published grammar — read as the renderer `rStmts` of
+    statements, declarations, the eleven-level ladder, prefix operators, suffix chains, literals and
+    groupings — writes for the tree that was returned.  No token is skipped, invented or reordered. -/
+theorem accepted_is_rendering (f : Nat) (ts : List Token) (p : List Stmt) (r : List Token)
+    (hw : ∀ t ∈ ts, TokWf t) (h : program f ts = .ok p r []) :
+    ∃ pre, ts = pre ++ r ∧ pre.map rtok = rStmts p ∧ ∃ e r', r = e :: r' ∧ e.tt = .EOF :=
+  program_sound f ts p r hw h
+
+open Grammar in
+/-- the same for a single expression: what `expression` consumes is the rendering of what it returns -/
+theorem expression_is_rendering (f : Nat) (ts : List Token) (e : Expr) (r : List Token)
+    (hw : ∀ t ∈ ts, TokWf t) (h : assignment f ts = .ok e r) :
+    ∃ pre, ts = pre ++ r ∧ pre.map rtok = rExpr e :=
+  (soundE f).asg ts e r hw h
+
+/-- totality of the lexer half of the front end: every text is tokenised (see C09.scan_total) -/
+theorem lexing_total (lm : Char → Bool) (hlm : lm '\n' = false) (src : List Char) :
+    ∃ toks ds, Lexer.scan lm src = some (toks, ds) := C09.scan_total lm hlm src
 
 /-- non-vacuity: a text with a lenient error is still rejected -/
 example : (frontEnd (fun c => c.isAlpha) "a b;".toList).diags ≠ [] := by decide
